@@ -66,6 +66,7 @@ func runC07(r *Run) {
 		reread int
 		j      int // bytes read before abandoning
 		buf    int
+		useRead bool // whole-message Conn.Read instead of Reader
 	}
 	type connPlan struct {
 		id    int
@@ -78,6 +79,11 @@ func runC07(r *Run) {
 		wAction int
 	}
 	type slotPlan struct{ conns []connPlan }
+	type keptSlice struct {
+		conn, seq  int
+		data, snap []byte
+	}
+	var kept []*keptSlice
 	var slots []slotPlan
 	var desc []string
 	for s := 0; s < nSlots; s++ {
@@ -97,6 +103,7 @@ func runC07(r *Run) {
 				mp.reread = 1 + t.Draw(3)
 				mp.j = 1 + t.Draw(mp.n)
 				mp.buf = []int{512, 7, 64, 4096, 32768}[t.Draw(5)]
+				mp.useRead = t.Pct(30)
 				if mp.action == 3 {
 					mp.n = 40000
 					mp.frags = SplitFrags(t, mp.n)
@@ -211,6 +218,32 @@ func runC07(r *Run) {
 						if mp.action == 6 || mp.action == 7 {
 							// (7: the abandon offset may lie beyond what arrived)
 							ctx, cancel = context.WithTimeout(bg, 2*time.Second)
+						}
+						if mp.useRead && (mp.action == 0 || mp.action >= 3 && mp.action <= 6) {
+							// Conn.Read: the slice it returns (also together with an error)
+							// belongs to the caller; it is kept and compared again at the end
+							_, data, rerr := c.Read(ctx)
+							if cancel != nil {
+								cancel()
+							}
+							if len(data) > len(want) || !bytes.Equal(data, want[:len(data)]) {
+								r.Violate("foreign-bytes", sig, "conn %d message %d: Conn.Read returned %d bytes (err %v) that are not a prefix of this connection's message; they %s", cp.id, seq, len(data), rerr, whose(data))
+								return
+							}
+							kept = append(kept, &keptSlice{conn: cp.id, seq: seq, data: data, snap: append([]byte(nil), data...)})
+							r.S.Count("probe.conn-read-slice-kept")
+							if mp.action == 0 {
+								if rerr != nil || len(data) != len(want) {
+									r.Violate("message-truncated-or-failed", sig, "conn %d message %d: Conn.Read got %d of %d bytes, err %v", cp.id, seq, len(data), len(want), rerr)
+									return
+								}
+								continue
+							}
+							if rerr == nil {
+								r.Violate("no-error", sig, "conn %d message %d: expected Conn.Read to fail, got %d bytes", cp.id, seq, len(data))
+							}
+							closed = true
+							break
 						}
 						_, rd, err := c.Reader(ctx)
 						if err != nil {
@@ -353,6 +386,13 @@ func runC07(r *Run) {
 	r.S.Loop()
 	if r.S.Aborted == "sim-time" {
 		r.Violate("stuck", "isolation", "programs did not finish: parked=%v", r.S.ParkedIDs())
+	}
+	for _, ks := range kept {
+		if !bytes.Equal(ks.data, ks.snap) {
+			d := firstDiff(ks.data, ks.snap)
+			r.Violate("returned-slice-changed-later", "isolation", "the slice Conn.Read returned for message %d of connection %d (%d bytes) changed after later reads, at byte %d; it now holds bytes that %s", ks.seq, ks.conn, len(ks.snap), d, whose(ks.data[d:]))
+			break
+		}
 	}
 }
 
